@@ -3,6 +3,9 @@ NOTES = ("Solver-based checking of the real code: z3 decides, per program skelet
          "property for all possible worlds, all parameter values and all leaf data within the stated "
          "bounds; structure (skeletons, shapes, histories, schedules) is enumerated. See DESIGN.md.")
 ENGINES = [
+    {"name": "E5 shadow", "path": "vlib/sym.py + vlib/leaf.py", "kind_free_text":
+        "proxy values over z3 terms (reals, log values, ints, strings) driven through the real functions by a DFS path driver; builtins shadowed as module globals",
+     "serves_properties": ["C12"]},
     {"name": "E1 symsem", "path": "vlib/symsem.py + vlib/sym.py", "kind_free_text":
         "real inference pipeline executed with symbolic weights (SymReal proxies through the real "
         "SemiringProbability; z3 Bool semiring for the world dimension)",
@@ -64,4 +67,8 @@ CHECKS["C11"] = dict(engine="E3 tv (vlib/builder.py)", category=TV,
     technique="real builder call sequences mirrored by an unsimplified spec graph; least-model encodings of both node tables compared by z3 (SAT) for all atom assignments after every call",
     text="Every call sequence (bounded-exhaustive: all sequences of <= 2 compound calls over two atoms with every operand choice under 7-11 option vectors, depth 3 in the thorough tier; plus seeded sequences up to length 60 over <= 12 atoms with mutable/cyclic disjunctions, names, groups, deterministic atoms) is run on the real LogicFormula; after each call z3 proves that every key returned so far, and every entry of the name table, denotes the function the calls describe, for all atom assignments.",
     note="Sequences are enumerated/seeded, not symbolic. Sequences never contain a cycle through negation. Trusted: vlib/tv.py encoder (shared by spec and implementation side), z3.")
+CHECKS["C12"] = dict(engine="E5 shadow (vlib/sym.py proxies + vlib/leaf.py law prover)", category="other",
+    technique="concolic execution of the real semiring methods on proxy values (builtin float and the math module shadowed as module globals of problog.evaluator); per feasible path z3 (NRA) decides the law for all values in [0,1]; SemiringSymbolic output parsed back and decided as a polynomial identity",
+    text="~110 laws (commutative-semiring laws, identities, negate/normalize/ad_complement/to_evidence contracts for the probability and log-probability semirings; log-probability as the logarithmic image of probability operation by operation; documented base-class defaults on a user-defined semiring; value-component laws of the MPE semirings) are harnesses over the real methods; every path of every harness is decided by z3 for all inputs. ~3000 SemiringSymbolic expressions (depth <= 2 over a,b,c,0,1,0.5) are parsed and proved equal to the denoted rational function for all real a,b,c.",
+    note="Floats are reals; exp/log/log1p exact inverse bijections (log values carried by their linear image); tolerance constants read as infinitesimals, so values inside a tolerance band are identified with its centre. IEEE rounding is outside the claim. A solver model that does not reproduce with concrete floats is reported inconclusive.")
 NOT_APPLICABLE = {"C30": "check file exists (props/c30.py) but its triage is unfinished: it reports violations on the unchanged tree that have not been classified, so the property is not claimed"}
